@@ -66,13 +66,16 @@ def is_core(o):
     return not (o.C or o.H or o.T or o.r or o.trace_off or o.no_libcall)
 
 
-def rand_ropts(rng, times, core=False):
+def rand_ropts(rng, times, core=False, present=None):
     o = ROpts()
     fns = list(range(NFN))
+    if present and rng.random() < 0.8:
+        # mostly name functions that occur in the trace, so that the option has something to select
+        fns = sorted(present) if len(present) >= 3 else sorted(set(present) | set(rng.sample(fns, 3)))
     if rng.random() < 0.4:
-        o.F = rng.sample(fns, rng.randint(1, 2))
+        o.F = rng.sample(fns, min(len(fns), rng.randint(1, 2)))
     if rng.random() < 0.4:
-        o.N = [f for f in rng.sample(fns, rng.randint(1, 2)) if f not in o.F]
+        o.N = [f for f in rng.sample(fns, min(len(fns), rng.randint(1, 2))) if f not in o.F]
     if rng.random() < 0.35:
         o.D = rng.randint(1, 4)
     if rng.random() < 0.4:
@@ -82,7 +85,7 @@ def rand_ropts(rng, times, core=False):
     if rng.random() < 0.15:
         o.C = rng.sample(fns, 1)
     if rng.random() < 0.2:
-        o.H = [f for f in rng.sample(fns, rng.randint(1, 2))]
+        o.H = [f for f in rng.sample(fns, min(len(fns), rng.randint(1, 2)))]
     if rng.random() < 0.5:
         for _ in range(rng.randint(1, 2)):
             fn = rng.choice(fns)
@@ -115,7 +118,7 @@ def rand_ropts(rng, times, core=False):
     if rng.random() < 0.12:
         o.trace_off = True
     if rng.random() < 0.2:
-        o.plt = rng.sample(fns, rng.randint(1, 3))
+        o.plt = rng.sample(fns, min(len(fns), rng.randint(1, 3)))
         o.no_libcall = rng.random() < 0.7
     o.no_merge = rng.random() < 0.2
     return o
@@ -154,12 +157,12 @@ def trig_table(o):
     return trig
 
 
-def model_cfg(o):
+def model_cfg(o, pltfixed=0):
     trig = trig_table(o)
     optin = any("filter=in" in v for v in trig.values())
-    lines = ["RESET", "CFG depth=%d threshold=%d optin=%d locin=0 caller=%d enabled=%d rstart=%d rstop=%d nolibcall=%d nomerge=%d" % (
+    lines = ["RESET", "CFG depth=%d threshold=%d optin=%d locin=0 caller=%d enabled=%d rstart=%d rstop=%d nolibcall=%d nomerge=%d pltfixed=%d" % (
         o.D if o.D is not None else 1024, o.t or 0, optin, 1 if o.C else 0, 0 if o.trace_off else 1,
-        o.r[0] if o.r else 0, o.r[1] if o.r else 0, 1 if o.no_libcall else 0, 1 if o.no_merge else 0)]
+        o.r[0] if o.r else 0, o.r[1] if o.r else 0, 1 if o.no_libcall else 0, 1 if o.no_merge else 0, pltfixed)]
     for fn, items in sorted(trig.items()):
         lines.append("TRIG %d %s" % (fn, " ".join(items)))
     return lines
@@ -510,6 +513,12 @@ def model_queries(case):
         cmds.append("spec")
     for c in cmds:
         lines.append("RUN %s %s" % (c, tk))
+    if o.no_libcall and o.plt:
+        # the two loops that finding F-C07-NOLIBCALL is about, as they are after its repair
+        lines += model_cfg(o, pltfixed=1)
+        lines.append("RUN replay %s" % tk)
+        lines.append("RUN script %s" % tk)
+        cmds = cmds + ["_cfg"] * (len(model_cfg(o, 1))) + ["replay_fixed", "script_fixed"]
     return lines, cmds
 
 
@@ -534,7 +543,8 @@ def evaluate(ctx, uft, cases, root):
     mout = C.run_model("C07", mlines)
     for case, im, (base, cmds) in zip(cases, impl, spans):
         case["impl"] = im
-        case["model"] = {c: ([] if mout[base + k].strip() == "-" else mout[base + k].split()) for k, c in enumerate(cmds)}
+        case["model"] = {c: ([] if mout[base + k].strip() == "-" else mout[base + k].split())
+                         for k, c in enumerate(cmds) if c != "_cfg"}
     return cases
 
 
@@ -542,8 +552,11 @@ def has_switch(o):
     return o.trace_off or any(a in ("trace_on", "trace_off") for _, acts in o.T for a, _ in acts)
 
 
+FINDING_NOLIBCALL = "F-C07-NOLIBCALL"
+
+
 def assess(case):
-    """returns (model/code mismatches, property failures on the implementation's output)"""
+    """returns (model/code mismatches, property failures on the implementation's output, finding tag or None)"""
     o, recs, im, mo = case["opts"], case["recs"], case["impl"], case["model"]
     mism, bad = [], []
     for cmd in COMMANDS:
@@ -551,13 +564,23 @@ def assess(case):
         if rc != 0:
             bad.append((cmd, "exit status %s: %s" % (rc, err[-200:])))
     if bad:
-        return mism, bad
+        return mism, bad, None
     opens = open_at_end(recs, o)
-    # --- model vs code, command by command
-    if im["replay"][1] != mo["replay"]:
-        mism.append(("replay", im["replay"][1][:12], mo["replay"][:12]))
-    if im["script"][1] != mo["script"]:
-        mism.append(("script", im["script"][1][:12], mo["script"][:12]))
+    plt_case = bool(o.no_libcall and o.plt)
+    # --- model vs code, command by command.  replay and script have two models when --no-libcall meets PLT
+    # symbols: the code as it is (finding F-C07-NOLIBCALL) and the code after the proposed repair
+    variant = "as-is"
+    if plt_case and (mo["replay_fixed"] != mo["replay"] or mo["script_fixed"] != mo["script"]):
+        if im["replay"][1] == mo["replay"] and im["script"][1] == mo["script"]:
+            variant = "pre-fix"
+        elif im["replay"][1] == mo["replay_fixed"] and im["script"][1] == mo["script_fixed"]:
+            variant = "repaired"
+    case["variant"] = variant
+    mrep, mscr = (mo["replay_fixed"], mo["script_fixed"]) if variant == "repaired" else (mo["replay"], mo["script"])
+    if im["replay"][1] != mrep:
+        mism.append(("replay", im["replay"][1][:12], mrep[:12]))
+    if im["script"][1] != mscr:
+        mism.append(("script", im["script"][1][:12], mscr[:12]))
     if im["dump"][1] != proj_calls(mo["dump"]) and not opens:
         mism.append(("dump --chrome", im["dump"][1][:12], proj_calls(mo["dump"])[:12]))
     if im["dumpraw"][1] != proj_calls(mo["dumpraw"]):
@@ -568,22 +591,29 @@ def assess(case):
         g = im["graph"][1]
         if isinstance(g, str) or g != proj_graph(mo["graph"]):
             mism.append(("graph", str(g)[:300], str(proj_graph(mo["graph"]))[:300]))
-    # --- the property on the implementation's output
+    # --- the property on the implementation's output: the commands agree
     ref = im["script"][1]
-    plt_nested = o.no_libcall and o.plt
-    if not plt_nested:
-        if im["replay"][1] != ref:
-            bad.append(("replay-vs-script", im["replay"][1][:12], ref[:12]))
-        if not opens:
-            if im["dump"][1] != proj_calls(ref):
-                bad.append(("dump--chrome-vs-script", im["dump"][1][:12], proj_calls(ref)[:12]))
-            if im["report"][1] != proj_report(ref):
-                bad.append(("report-vs-script", im["report"][1], proj_report(ref)))
-            if not isinstance(im["graph"][1], str) and im["graph"][1] != proj_graph(ref):
-                bad.append(("graph-vs-script", str(im["graph"][1])[:300], str(proj_graph(ref))[:300]))
-        if not o.t and not o.C and not any(a == "time" for _, acts in o.T for a, _ in acts):
-            if im["dumpraw"][1] != proj_calls(ref):
-                bad.append(("dump-vs-script", im["dumpraw"][1][:12], proj_calls(ref)[:12]))
+    agree = []
+    if (im["replay"][1] if not plt_case else proj_calls(im["replay"][1])) != (ref if not plt_case else proj_calls(ref)):
+        agree.append(("replay-vs-script", im["replay"][1][:12], ref[:12]))
+    if not opens:
+        if im["dump"][1] != proj_calls(ref):
+            agree.append(("dump--chrome-vs-script", im["dump"][1][:12], proj_calls(ref)[:12]))
+        if im["report"][1] != proj_report(ref):
+            agree.append(("report-vs-script", im["report"][1], proj_report(ref)))
+        if not isinstance(im["graph"][1], str) and im["graph"][1] != proj_graph(ref):
+            agree.append(("graph-vs-script", str(im["graph"][1])[:300], str(proj_graph(ref))[:300]))
+    if not o.t and not o.C and not any(a == "time" for _, acts in o.T for a, _ in acts):
+        if im["dumpraw"][1] != proj_calls(ref):
+            agree.append(("dump-vs-script", im["dumpraw"][1][:12], proj_calls(ref)[:12]))
+    finding = None
+    if agree:
+        if plt_case and variant == "pre-fix" and not mism:
+            finding = FINDING_NOLIBCALL      # exactly the behaviour of the pre-fix model
+            case["disagreement"] = agree
+        else:
+            bad += agree
+    # --- … and show what the manual says
     if is_core(o) and closed(recs):
         exp = doc_spec(recs, o)
         if ref != exp:
@@ -592,7 +622,7 @@ def assess(case):
     if "spec" in mo and not has_switch(o) and not o.r and not o.no_libcall:
         if mo["spec"] != mo["report"]:
             mism.append(("model spec vs model loop (theorem c07_replay_refines_spec)", mo["spec"][:12], mo["report"][:12]))
-    return mism, bad
+    return mism, bad, finding
 
 
 def case_json(case):
@@ -684,6 +714,33 @@ def record_vs_replay(ctx, uft, root, nforest):
 
 
 # ---------------------------------------------------------------- run -----------------
+def probe_cases():
+    """hand-made cases that always run first (corpus): the minimal input of finding F-C07-NOLIBCALL, the -t
+    boundary at replay time, a -F below a -N, depth= and time= triggers, trace_off/trace_on, -r cut, -C"""
+    P = []
+
+    def add(tok, **kw):
+        o = ROpts()
+        for k, v in kw.items():
+            setattr(o, k, v)
+        P.append({"recs": stream_recs(tok.split()), "opts": o})
+    nest = "E:0:0:1000 E:1:1:1010 E:2:2:1020 X:2:2:1030 X:1:1:1040 X:0:0:1050"
+    add(nest, D=2, no_libcall=True, plt=[1])
+    add(nest, D=2, no_libcall=True, plt=[1], no_merge=True)
+    add(nest, F=[1], no_libcall=True, plt=[1])
+    add(nest, t=10)
+    add(nest, t=11)
+    add(nest, N=[1], F=[2])
+    add(nest, T=[(1, [("depth", 1)])], D=1)
+    add(nest, T=[(2, [("time", 1)])], t=100)
+    add(nest, T=[(2, [("trace", None)])], t=100)
+    add(nest, T=[(1, [("trace_off", None)]), (2, [("trace_on", None)])])
+    add(nest, r=(1015, 1045))
+    add(nest, C=[1])
+    add(nest, H=[1], D=2)
+    return P
+
+
 def run(ctx):
     ok, problems = C.prove(ctx, "C07")
     proof_broken = not ok
@@ -696,18 +753,26 @@ def run(ctx):
     root = os.path.join(ctx.scratch, "dirs")
     os.makedirs(root, exist_ok=True)
     nforest = 110 if ctx.tier == "quick" else 4000
-    cases = []
+    cases = probe_cases()
+    nprobe = len(cases)
     for i in range(nforest):
         recs, _ = forest_recs(rng, ctx.tier)
         if rng.random() < 0.15 and len(recs) > 4:
             recs = recs[:rng.randint(len(recs) // 2, len(recs) - 1)]      # tracing stopped with calls still open
         times = sorted({r[3] for r in recs})
+        present = {r[2] for r in recs}
         for k in range(3):
-            cases.append({"recs": recs, "opts": rand_ropts(rng, times, core=(k == 0)), "idx": len(cases)})
+            cases.append({"recs": recs, "opts": rand_ropts(rng, times, core=(k == 0), present=present)})
+    for i, c in enumerate(cases):
+        c["idx"] = i
     evaluations = disagreements = monitor_fail = replays = 0
     distinct = set()
     dist = {k: 0 for k in ("core_option_sets", "with_F", "with_N", "with_C", "with_H", "with_D", "with_t", "with_T", "with_r",
-                           "trace_off_start", "no_libcall", "no_merge", "open_calls_at_end", "records")}
+                           "trace_off_start", "no_libcall_with_plt", "no_merge", "open_calls_at_end", "records")}
+    sel = {"shows_everything": 0, "shows_nothing": 0, "shows_a_proper_part": 0, "folded_leaves": 0,
+           "record_removed_by_time_filter": 0, "hidden_parent_shown_child": 0}
+    variants = {"as-is": 0, "pre-fix": 0, "repaired": 0}
+    nolib_hits = []
     samples = []
     for lo in range(0, len(cases), 600):
         chunk = evaluate(ctx, uft, cases[lo:lo + 600], root)
@@ -717,15 +782,28 @@ def run(ctx):
             distinct.add(hash((json.dumps(o.describe(), sort_keys=True), tuple(case["recs"]))))
             dist["core_option_sets"] += is_core(o)
             for k, v in (("with_F", o.F), ("with_N", o.N), ("with_C", o.C), ("with_H", o.H), ("with_D", o.D), ("with_t", o.t),
-                         ("with_T", o.T), ("with_r", o.r), ("trace_off_start", o.trace_off), ("no_libcall", o.no_libcall),
-                         ("no_merge", o.no_merge)):
+                         ("with_T", o.T), ("with_r", o.r), ("trace_off_start", o.trace_off),
+                         ("no_libcall_with_plt", o.no_libcall and o.plt), ("no_merge", o.no_merge)):
                 dist[k] += bool(v)
             dist["open_calls_at_end"] += not closed(case["recs"])
             dist["records"] += len(case["recs"])
-            mism, bad = assess(case)
+            mism, bad, finding = assess(case)
+            shown = case["impl"]["script"][1]
+            nrec = len(case["recs"])
+            sel["shows_everything"] += len(shown) == nrec
+            sel["shows_nothing"] += len(shown) == 0
+            sel["shows_a_proper_part"] += 0 < len(shown) < nrec
+            sel["record_removed_by_time_filter"] += len(case["model"].get("la", [])) < nrec and not o.r
+            ds = [int(t.split(":")[1]) for t in shown if t[0] == "E"]
+            rd = {(t[2], t[3]): t[1] for t in case["recs"] if t[0] == "E"}
+            sel["hidden_parent_shown_child"] += any(
+                int(t.split(":")[1]) < rd.get((int(t.split(":")[2]), int(t.split(":")[3])), 0) for t in shown if t[0] == "E")
+            variants[case.get("variant", "as-is")] += 1
             disagreements += bool(mism)
             monitor_fail += bool(bad)
-            if len(samples) < 3 and case["idx"] % 53 == 5:
+            if finding:
+                nolib_hits.append(case)
+            if len(samples) < 3 and case["idx"] % 53 == 20:
                 samples.append({"cli": cli_args(o), "records": toks(case["recs"])[:16], "replay_shows": case["impl"]["replay"][1][:10]})
             if (mism or bad) and replays < 3:
                 replays += 1
@@ -735,10 +813,28 @@ def run(ctx):
                     "case": case_json(case), "model_input": model_queries(case)[0][:6],
                     "theorem": "c07_commands_agree / c07_replay_refines_spec (Props/C07.lean); correspondence Fstack",
                 }, no_failing_input=not bad)
+    # ---- finding F-C07-NOLIBCALL: replay/script skip a --no-libcall PLT record before the filters, the others after
+    if nolib_hits:
+        kf = [f for f in C.known_findings("C07") if f["id"] == FINDING_NOLIBCALL]
+        what = ("--no-libcall: script and replay drop a PLT record before fstack_entry/fstack_exit, report/graph/dump "
+                "(and replay's own fstack_skip) filter it and only hide it: with a call nested below a PLT function the "
+                "commands show different calls")
+        if kf:
+            C.known(ctx, kf[0], FINDING_NOLIBCALL + " " + what)
+        else:
+            c0 = min(nolib_hits, key=lambda c: (len(c["recs"]), c["idx"]))
+            monitor_fail += 1
+            C.violation(ctx, "nolibcall", {
+                "kind": "property-violated-on-implementation", "finding": FINDING_NOLIBCALL, "what": what,
+                "disagreement": [list(map(str, d)) for d in c0["disagreement"]], "case": case_json(c0),
+                "cases_with_this_shape": len(nolib_hits),
+                "implementation_matches_pre_fix_model": True,
+                "witness_theorem": "c07_nolibcall_disagree_witness", "proposed_fix": "proposed_fixes/C07-NOLIBCALL.diff",
+                "theorem": "c07_commands_agree (needs --no-libcall off)"})
     # ---- record time vs replay time
     rvr_n = 40 if ctx.tier == "quick" else 1500
     jobs, log = record_vs_replay(ctx, uft, root, rvr_n)
-    rvr = {"pairs": 0, "equal": 0, "boundary_probes": 0, "boundary_differs": 0}
+    rvr = {"pairs": 0, "equal": 0, "boundary_probes": 0, "boundary_differs": 0, "filtered_something": 0}
     if jobs is None:
         C.violation(ctx, "build-h1", {"kind": "harness-build-failed", "log": log[-3000:]}, True)
     else:
@@ -750,6 +846,7 @@ def run(ctx):
                 rvr["boundary_differs"] += (rep != c["recorded"])
                 continue
             rvr["pairs"] += 1
+            rvr["filtered_something"] += 0 < len(c["recorded"]) < len(c["plain"])
             if rc == 0 and rep == c["recorded"] and c["impl_cmp"] == c["model_cmp"]:
                 rvr["equal"] += 1
                 continue
@@ -771,22 +868,31 @@ def run(ctx):
                     no_failing_input=(monitor_fail == 0))
     ctx.coverage.update({
         "evaluations": evaluations, "distinct_nontrivial": len(distinct),
-        "rule": "random call forests (lib/mcgen.rand_forest: <= 30 calls quick / 60 thorough, depth <= 6, recursion, 10% zero-duration "
-                "calls; 15% cut with calls still open) over 9 functions, each with 3 option sets (1 core: -F/-N/-D/-t; 2 rich: plus -C, -H, "
-                "-T depth=/time=/trace/filter/notrace/trace_on/trace_off/hide/caller, -r, --trace=off, --no-libcall with PLT symbols, "
-                "--no-merge), each analysed by replay, script, dump --chrome, report, graph and raw dump (6 runs). "
-                "Then H1->H3: forests recorded by the real libmcount (-pg or -finstrument-functions hook) with and without "
-                "-F/-N/-D/-t; the unfiltered recording is replayed with the option. distinct = distinct (options, records)",
-        "input_distribution": dist, "model_code_disagreements": disagreements, "monitor_failures_on_impl": monitor_fail,
-        "record_vs_replay": rvr, "samples": samples, "exhaustive": False,
+        "rule": "%d hand-made probe cases, then random call forests (lib/mcgen.rand_forest: <= 30 calls quick / 60 thorough, depth <= 6, "
+                "recursion, 10%% zero-duration calls; 15%% cut with calls still open) over 9 functions, each with 3 option sets (1 core: "
+                "-F/-N/-D/-t; 2 rich: plus -C, -H, -T depth=/time=/trace/filter/notrace/trace_on/trace_off/hide/caller, -r, --trace=off, "
+                "--no-libcall with PLT symbols, --no-merge; 80%% of the option sets name only functions that occur in the trace), each "
+                "analysed by replay, script, dump --chrome, report, graph and raw dump (6 runs). Then H1->H3: forests recorded by the "
+                "real libmcount (-pg or -finstrument-functions hook) with and without -F/-N/-D/-t; the unfiltered recording is replayed "
+                "with the option. distinct = distinct (options, records)" % nprobe,
+        "input_distribution": dist, "selection_outcomes": sel, "nolibcall_model_variant_matched": variants,
+        "model_code_disagreements": disagreements, "monitor_failures_on_impl": monitor_fail,
+        "finding_nolibcall_cases": len(nolib_hits), "record_vs_replay": rvr, "samples": samples, "exhaustive": False,
     })
     ctx.assumptions += [
         "one task, user ENTRY/EXIT records, absolute -r time stamps; regex patterns anchored on whole names",
         "report/graph are compared on call counts / the call-graph shape they print, dump on (type, function, time), replay and "
-        "script on (type, display depth, function, time)",
+        "script on (type, display depth, function, time); report/graph/dump --chrome are not compared on traces that end with open "
+        "calls or are cut by -r (their 'remaining functions' accounting ignores the filters: C08/C15 territory)",
+        "raw `uftrace dump` reads the task files without the look-ahead, so -t / time= / -C do not apply to it (modelled as coded, "
+        "theorem c07_dumpraw_agrees has the hypothesis); it is compared with the other commands only without those options",
         "record-vs-replay: -t values equal to a call's duration are kept out of the comparison (record time keeps '> t', replay "
-        "'>= t': candidate finding S4, not listed in known_findings.json); they are probed separately and counted in "
-        "coverage.record_vs_replay.boundary_differs",
+        "'>= t': candidate finding S4, theorem c07_time_boundary_witness; not listed in known_findings.json); they are probed "
+        "separately and counted in coverage.record_vs_replay.boundary_differs",
+    ]
+    ctx.notes += [
+        "`uftrace graph -D n` synthesizes the trigger '_start@depth=n'; when the symbol table has no _start the filter setup is "
+        "abandoned half-way and -C/-H are silently ignored (the synthetic program therefore has a _start symbol)",
     ]
     return C.finish(ctx)
 
